@@ -15,6 +15,7 @@
 from concurrent.futures import ThreadPoolExecutor
 import contextlib
 import itertools
+import json
 import os
 from types import TracebackType
 from typing import (
@@ -106,11 +107,13 @@ class DatasetIteration(DatasetBase):
         # Only use a limited amount of shards for each setting of
         # custom_metadata.
         if custom_metadata_type_limit:
-            counts: dict[tuple[tuple[str, Any], ...], int] = {}
+            # The custom metadata can contain unhashable values (lists, nested
+            # dictionaries), use its canonical JSON representation as the key.
+            counts: dict[str, int] = {}
             old_shards_list = shards_list
             shards_list = []
             for shard_info in old_shards_list:
-                k = tuple(sorted(shard_info.custom_metadata.items()))
+                k = json.dumps(shard_info.custom_metadata, sort_keys=True)
                 counts[k] = counts.get(k, 0) + 1
                 if counts[k] <= custom_metadata_type_limit:
                     shards_list.append(shard_info)
